@@ -16,4 +16,37 @@ SPEC = {
          'sinks': {'C02_roots': 'roots_judge'}, 'n': {'quick': 600, 'thorough': 30000}},
     ],
     'known': {'2': 'F01b'},
+    'rule': 'lim: fixed 19x19x10 boundary grid {0..3,254..258,2^63-1..2^63+1,2^64-258..2^64-255,2^64-3..2^64-1}^2 x '
+            '{0,1,2,3,255,256,257,2^63,2^64-2,2^64-1} plus a random stream (size n-1/n/n+1, near 2^64, inverted, full range); '
+            'rng: 0..12 chains, each (off,on) pair drawn from equal / on=off-1 / size n-1,n,n+1 / much larger / inverted / 0 / '
+            'near 2^64 / full range / on missing / off missing, tree size in {1,2,3,16,256,257,2^63,2^64-1,0}; half through '
+            'reportRangesOutcome with a constructed consensus observation, half through Processor.Outcome with 4 oracles (F=1) '
+            'voting identically and every previous outcome type that leads to the selecting state; '
+            'roots: 0..5 requested intervals (sizes 1..17; at 0, mid, ending at 2^64-1, inverted, full), scripted reader answer per '
+            'chain from complete / unordered / prefix / suffix / gap / duplicate (extra, replacing) / window shifted up or down / '
+            'extra below or above / wrong source chain (one, all) / empty / nil / error / hasher error / one short, '
+            'supported-chain set and on-ramp address lookup with failures. '
+            'non-trivial = lim: valid range, n>=1, size within one of n or end within 257 of 2^64; rng: >= 1 chain with something '
+            'pending and n >= 1; roots: >= 1 supported interval with a non-error reader answer; distinct by full input',
+    'trusted': ['CCIPReader.MsgsBetweenSeqNums, GetContractAddress, ChainSupport.SupportedChains and the message hasher are oracles '
+                '(scripted fakes); the theorems hold for every answer',
+                'keccak HashInternal / ZeroHash (chainlink-common hashutil) enter the model as an abstract hash h and constant zero; in '
+                'the correspondence the model tree is evaluated through a table of real HashInternal results logged by the harness',
+                'merklemulti.NewTree is modelled from its source (pad odd layer with zero hash, hash neighbours pairwise)',
+                'sort.Slice is modelled as a stable sort; on inputs with equal keys the modelled code rejects the input anyway',
+                'len(msgs) < 2^64'],
+    'assumptions': ['agreed on-ramp / off-ramp maps (the consensus result) are inputs; that they need 2f+1 observers is C01',
+                    'MaxMerkleTreeSize >= 1 (plugin constructor replaces 0 by 256)'],
+    'level_text': 'Proof: 16 Coq theorems. Limit = [s, min(e, s+n-1)] for all uint64 ranges and n >= 1 with no wrap-around; selected '
+                  'intervals characterised exactly (iff) for all agreed maps, sorted, no chain twice, size <= n, omitted when nothing '
+                  'pending, independent of Go map order; a root is reported iff the reader answer holds every sequence number of the '
+                  'interval exactly once, the hasher and address lookup succeed, and the root is the tree over the hashes in sequence '
+                  'order (independent of the order of the answer). Refutations of the unrepaired Limit (F02) and unrepaired observation '
+                  '(F01); F01b (header source chain unchecked) recorded with _refuted/_except_known. Correspondence: Limit, '
+                  'reportRangesOutcome / Processor.Outcome and ObserveMerkleRoots run against the model every run',
+    'level_note': 'Trusted: Coq kernel, hand-written model, differential harness. Reader, hasher, address and chain-support answers are '
+                  'oracles; keccak is abstract (no collision-freeness is claimed or needed). No axioms.',
+    'modelled': 'SeqNumRange.Limit, reportRangesOutcome (ranges and carried off-ramp cursor; the RMN remote config field is part of C03/C05), '
+                'ObserveMerkleRoots, msgsCoverRange, computeMerkleRoot, merklemulti.NewTree/Root; goroutine completion order is '
+                'abstracted (roots compared as a multiset)',
 }
